@@ -98,8 +98,16 @@ def run_case(case, make_transformations, base=None, flags=None, keep_files=False
     orig = xfast.merged_build_run(case['sources'], case['driver'], case.get('extra', ()), base=base, flags=flags)
     if not orig['ok']:
         return dict(verdict='HARNESS', detail=f'original fails at {orig["stage"]}: {orig["err"][-600:]}', changed=False)
+    first_error = None
     try:
-        ret, before = scheduler_apply(case, make_transformations, prefix=prefix, optional=optional, with_base=True)
+        try:
+            ret, before = scheduler_apply(case, make_transformations, prefix=prefix, optional=optional, with_base=True)
+        except Exception as ex1:  # pylint: disable=broad-except
+            # one retry: Loki is deterministic, so a genuine exception is raised again; a transient failure of the
+            # environment (the box is shared) must not masquerade as a verdict - it would only be caught later by the
+            # runner's replay guard and abort the whole run as HARNESS-ERROR
+            first_error = f'{type(ex1).__name__}: {str(ex1)[:200]}'
+            ret, before = scheduler_apply(case, make_transformations, prefix=prefix, optional=optional, with_base=True)
     except Exception as ex:  # pylint: disable=broad-except
         tb = traceback.format_exc().strip().splitlines()
         where = next((ln.strip() for ln in reversed(tb) if ln.strip().startswith('File "') and '/loki/' in ln), '')
@@ -112,9 +120,11 @@ def run_case(case, make_transformations, base=None, flags=None, keep_files=False
     changed = any(ret.get(f) is not None and ret[f] != before.get(f) for f, _ in case['sources'])
     res = xfast.merged_build_run(new, case['driver'], case.get('extra', ()), base=base, flags=flags)
     out = dict(changed=changed, transformed=new if keep_files else None)
+    if first_error:
+        out['transient_first_attempt_error'] = first_error
     if not res['ok']:
         kind = 'xform-compile-error' if res['stage'] == 'compile' else 'xform-run-error'
-        out.update(verdict=kind, detail=(res['err'] or '')[-900:])
+        out.update(verdict=kind, detail=_digest(res['err'] or ''))
         return out
     a, b = xform.norm_out(orig['out']), xform.norm_out(res['out'])
     if a != b:
@@ -125,3 +135,14 @@ def run_case(case, make_transformations, base=None, flags=None, keep_files=False
         return out
     out.update(verdict='ok' if changed else 'unchanged-ok', detail='', nlines=len(a), distinct_lines=len(set(a)))
     return out
+
+
+def _digest(err):
+    """the informative part of a compiler / runtime message (AddressSanitizer reports are long)"""
+    lines = err.splitlines()
+    if 'AddressSanitizer' in err:
+        keep = [ln.strip() for ln in lines if 'ERROR: AddressSanitizer' in ln or ln.startswith(('READ of', 'WRITE of'))
+                or 'is located' in ln or 'SUMMARY' in ln]
+        return ' | '.join(keep)[:900]
+    lines = [ln for ln in lines if not ln.startswith('#') and 'Backtrace' not in ln]
+    return '\n'.join(lines)[-900:]
